@@ -136,6 +136,12 @@ def gen_program(cases, bom=False):
         index.append((uid, c, first, line - 1))
         out.append(text)
         calls.append("    s%d();\n" % uid)
+        if len(index) == 10:
+            # a long stretch without any statement (more than one 64 KiB buffer, not a multiple of it)
+            filler = "// " + "filler " * 12 + "\n"
+            block = filler * (70000 // len(filler) + 1)
+            out.append(block)
+            line += block.count("\n")
     out.append("pub fn run_all() {\n" + "".join(calls) + "}\n")
     return "".join(out), index
 
